@@ -280,6 +280,54 @@ def _end_relative(text):
     return norm(T().visit(tree).body)
 
 
+def _wsvalue_at_callers(r, p, fi, c, recv):
+    """the blank write sits in a module-level helper and its receiver is (rooted at) a parameter: decide it where the
+    helper is called - the argument, expanded in the caller, must be class-tested there or be a tabled position of the
+    caller (the site moved into a helper; the key it had before still identifies it)"""
+    from ..flow import Facts
+    from ..model import expand_text
+
+    if fi.cls is not None:
+        return False
+    root = c.func.value
+    while isinstance(root, (ast.Subscript, ast.Attribute)):
+        root = root.value
+    if not (isinstance(root, ast.Name) and root.id in fi.params):
+        return False
+    pi = fi.params.index(root.id)
+    n_calls = 0
+    for g in p.functions.values():
+        if g.module is not fi.module:
+            continue
+        gf = None
+        for call in walk_function(g.node):
+            if not (isinstance(call, ast.Call) and isinstance(call.func, ast.Name) and call.func.id == fi.name):
+                continue
+            n_calls += 1
+            if pi >= len(call.args):
+                return False
+            arg = expand_text(g, call.args[pi])
+            here = _end_relative(recv.replace(root.id, arg, 1)) if recv.startswith(root.id) else None
+            if here is None:
+                return False
+            if gf is None:
+                gf = Facts(g.node)
+            ok = False
+            for t, pol in gf.conds_at(call):
+                if pol is True and t.startswith("isinstance("):
+                    try:
+                        tc = ast.parse(t, mode="eval").body
+                    except SyntaxError:
+                        continue
+                    if isinstance(tc, ast.Call) and len(tc.args) == 2 and norm(tc.args[1]).endswith("whitespace") and _end_relative(expand_text(g, tc.args[0])) == here:
+                        ok = True
+            if not ok and r.tabled("C01.wsvalue", "%s:set_value-blank:%s" % (g.key, here)):
+                ok = True
+            if not ok:
+                return False
+    return n_calls > 0
+
+
 def _wsvalue(r, p, fx, reach):
     """`tok.set_value(<blanks>)` deletes `tok` from the written file unless tok is a whitespace token.  Every such call in
     rule code reachable from a fix is listed with its receiver; the receiver must be class-tested in the same function
@@ -329,6 +377,8 @@ def _wsvalue(r, p, fx, reach):
                 r.ok("C01.wsvalue", kk, "the receiver is class-tested whitespace on every path to the call" if tested else "the receiver is a whitespace token created in this function", sample=False)
             elif r.tabled("C01.wsvalue", kk):
                 r.ok("C01.wsvalue", kk, "tabled: " + r.tabled("C01.wsvalue", kk).get("reason", "")[:120], sample=False)
+            elif _wsvalue_at_callers(r, p, fi, c, recv):
+                r.ok("C01.wsvalue", kk, "the receiver is a parameter of a helper; every caller passes a class-tested or tabled position", sample=False)
             else:
                 r.fail("C01.wsvalue", kk, "`%s` writes blanks into `%s`, which nothing shows to be a whitespace token at this point: if it is a code token it disappears from the written file" % (norm(c)[:60], recv), fi.loc(c))
     r.extra["blank_value_writes"] = n_sites
